@@ -45,6 +45,16 @@ fn gen_prog(s: &mut Src, allow_fail: bool) -> (&'static str, Program) {
 
 pub fn build(draws: &[u16], _tier: Tier) -> Case {
     let mut s = Src::new(draws);
+    if s.chance(1, 10) {
+        // exploration state (the exploring / skipping flags of `stop_exploring`, `explore`,
+        // `skip_branch`) must not survive from one iteration into the next either: phase programs
+        // of C19 with its product oracle (a flag left over from an earlier iteration freezes or
+        // unfreezes a phase in the later ones)
+        let mut c = crate::props::c19::build_mode(&draws[1..], _tier, Some(0));
+        c.prop = "C16".into();
+        c.family = "controls".into();
+        return c;
+    }
     let mode = ["seq", "seq", "middle", "parallel", "parallel", "resume", "resume"][s.pick(7)];
     let (fam, p) = gen_prog(&mut s, false);
     let (_, q) = gen_prog(&mut s, true);
@@ -111,6 +121,14 @@ pub fn eval(case: &Case) -> Verdict {
     let mut v = Verdict::pass();
     if let Err(e) = p.well_formed() {
         return Verdict::skip(&format!("ill-formed: {}", e));
+    }
+    if case.family == "controls" {
+        let mut c = case.clone();
+        c.prop = "C19".into();
+        let mut v = crate::props::c19::eval(&c);
+        v.labels.retain(|l| !l.starts_with("mode_"));
+        v.label("mode_controls");
+        return v;
     }
     let q = match &case.x.prog2 {
         Some(q) => q.clone(),
